@@ -67,7 +67,7 @@ class VLoop(asyncio.SelectorEventLoop):
     def time(self):
         return self.vt
 
-    def drain(self, n=50000):
+    def drain(self, n=4000):
         """run the loop until nothing is ready any more (timers do not fire: the clock stands still)"""
         async def z():
             idle = 0
@@ -445,18 +445,22 @@ class ClientSession:
         done_at = []
         task.add_done_callback(lambda _t: done_at.append(loop.vt))
         loop.drain()
+        prev_tr = getattr(self, 'cur_tr', None)
         tr = self.transports[-1]
+        self.cur_tr = tr
         proto = tr.protocol
         self.proto = proto
         fut = proto._response_fut
         writer = getattr(blob, 'spy_writer', None)
         sent_request = b''.join(tr.written)
         tr.written = []
-        rx, worst = 0, 0
+        rx, worst, idle_data = 0, 0, False
         for ev in events:
             jb0 = JSON_WORK.bytes
             if ev[0] in ('data', 'late'):
                 rx += len(ev[1]) // 2
+            if ev[0] == 'data' and task.done() and not tr.closing and ev[1]:
+                idle_data = True        # the request is over, the connection was kept: this segment is unsolicited
             k = ev[0]
             if k == 'data':
                 tr.deliver(bytes.fromhex(ev[1]))
@@ -472,6 +476,13 @@ class ClientSession:
                 loop.advance(max(int(ev[1]), 0))
             elif k == 'lost':
                 tr.peer_close()
+            elif k == 'cancel':
+                task.cancel()
+                loop.drain()
+            elif k == 'data_prev':
+                # the previous request's peer is still sending on ITS connection (which may or may not be this one)
+                if prev_tr is not None:
+                    prev_tr.deliver(bytes.fromhex(ev[1]))
             worst = max(worst, JSON_WORK.bytes - jb0)
             lens_seen.add(blob.length)
         loop.drain()
@@ -503,7 +514,7 @@ class ClientSession:
         extra = {'verified_flag': verified, 'on_disk': on_disk, 'elapsed': loop.vt - t0, 'request': sent_request,
                  'task': task, 'transport_closed': tr.closing, 'raised': list(tr.raised),
                  'json_bytes': worst, 'rx': rx, 'lens_seen': [x for x in lens_seen if x is not None],
-                 'done_after': (done_at[0] - t0) if done_at else None}
+                 'done_after': (done_at[0] - t0) if done_at else None, 'idle_data': idle_data}
         if phase == 'pending':
             task.cancel()
             loop.drain()
@@ -552,8 +563,8 @@ def monitor_client(req, obs, extra, T):
         return 'blob verified (%d bytes on disk) but blob.length is %r' % (len(on_disk), obs['len'])
     if extra['elapsed'] >= 2 * T and obs['phase'] == 'pending':
         return 'download still pending %s s after the request (timeouts are %s s each)' % (extra['elapsed'], T)
-    if obs['phase'] != 'pending' and not verified and obs['phase'][0] != 'ok' and obs['open']:
-        return 'download failed but the connection was left open'
+    if obs['phase'] != 'pending' and obs['phase'][0] != 'ok' and obs['open']:
+        return 'the request did not end "ok" (%r) but the connection to that peer was left open' % (obs['phase'],)
     try:
         rq = json.loads(extra['request'])
         if rq.get('requested_blob') != h or rq.get('requested_blobs') != [h]:
@@ -567,6 +578,8 @@ def monitor_client(req, obs, extra, T):
             and not any(e[0] == 'lost' for e in req['events']) and extra['done_after'] < T:
         return ('a stalled peer was given up after %s s, before blob_download_timeout=%s s (peer_connect_timeout is %s s)'
                 % (extra['done_after'], T, CONNECT_T))
+    if extra['idle_data'] and obs['open']:
+        return 'bytes arrived on the idle kept connection after the request had ended and the connection was not closed'
     if req.get('tag') in REFUSE_TAGS and isinstance(obs['phase'], list) and obs['phase'][0] == 'ok':
         return 'the client accepted a response it must refuse (%s)' % req['tag']
     if req.get('honest'):
@@ -704,7 +717,7 @@ MISBEHAVIOURS = [
     'json_falsy_error', 'json_deep', 'json_only_address', 'oversized_open', 'oversized_ws', 'silence',
     'not_available', 'price_rejected', 'lost_mid_header', 'lost_after_header', 'late_bytes', 'slow_ok', 'slow_timeout',
     'hash_nonstr', 'avail_other', 'no_avail_key', 'no_price_key', 'second_response', 'len_bool',
-    'cap_hdr_in', 'cap_hdr_out', 'cap_junk_in', 'cap_junk_out', 'brace_flood', 'len_max', 'len_max_minus1', 'avail_empty_ok',
+    'cap_hdr_in', 'cap_hdr_out', 'cap_junk_in', 'cap_junk_out', 'brace_flood', 'len_max', 'len_max_minus1', 'avail_empty_ok', 'cancel_mid',
 ]
 
 
@@ -751,6 +764,8 @@ def gen_request(rng, T, mis=None, size=None, blob_kind=None, frag=None, known_mo
             pass
         if rng.random() < 0.3:
             body = blob + rng.randbytes(8)
+    elif mis == 'cancel_mid':
+        pass        # honest stream; the request task is cancelled mid-body (events built below)
     elif mis == 'avail_empty_ok':
         # what the real server answers for a verified blob that is not in its completed index: still an honest transfer
         hdr = hd(available_blobs=[])
@@ -878,6 +893,16 @@ def gen_request(rng, T, mis=None, size=None, blob_kind=None, frag=None, known_mo
                 events.append(['adv', T - 1 if (late_hdr or mis == 'slow_ok') else T])
             events += [['data', c.hex()], ['drain']]
         honest = mis == 'slow_ok'
+    if mis == 'cancel_mid':
+        # the download is cancelled (another peer won the race / the stream was stopped) while the body is arriving; the
+        # honest server keeps sending the tail
+        cut = len(hdr) + rng.choice([0, n // 2, max(n - 1, 0)])
+        pos = rng.choice(['mid', 'mid', 'before_header'])
+        if pos == 'before_header':
+            cut = rng.randrange(0, len(hdr))
+        events = to_events(rng, fragment(rng, stream[:cut], min(cut, len(hdr)), frag) if cut else [], 1.0) + [['cancel']] + \
+            ([['data', stream[cut:].hex()], ['drain']] if cut < len(stream) else [])
+        honest = False
     if mis == 'len_bool':
         modelled = False
     if honest is not True:
@@ -2073,6 +2098,13 @@ def run_downloader_case(run, model, case):
         tasks = {}
         for i in order:
             h = hs[i]
+            if i == case.get('cancel_first') and i not in tasks:
+                # the user stops the download while it is in progress, then asks again
+                tc = loop.create_task(dl.download_blob(h, len(blobs[i]) if case['with_length'][i] else None))
+                loop.drain()
+                loop.advance(case.get('cancel_after', 1))
+                tc.cancel()
+                loop.drain()
             if i not in tasks:
                 # all blobs of one group are requested at the same time through the same BlobDownloader
                 t0 = loop.vt
@@ -2155,6 +2187,12 @@ def fixed_downloader_cases():
            'with_length': [True, True], 'precache': [True, True], 'once_kind': 'wrong_length'}
     yield {'kind': 'downloader', 'seed': 82, 'sizes': [100], 'peers': [{'holds': [0], 'once': {'0': 'wrong_length'}}],
            'with_length': [True], 'precache': [True], 'once_kind': 'wrong_length'}
+    # /verif/seeded/C10-15: a download is cancelled while in progress (the peer stalls mid-body), then requested again
+    yield {'kind': 'downloader', 'seed': 151, 'sizes': [5000, 70000], 'peers': [{'holds': [0, 1], 'once': {'1': 'short_stall'}}],
+           'with_length': [False, True], 'precache': [False, False], 'once_kind': 'short_stall', 'cancel_first': 1,
+           'cancel_after': 1}
+    yield {'kind': 'downloader', 'seed': 152, 'sizes': [100], 'peers': [{'holds': [0], 'once': {'0': 'short_stall'}}],
+           'with_length': [False], 'precache': [False], 'once_kind': 'short_stall', 'cancel_first': 0, 'cancel_after': 2}
     # /verif/seeded/C10-12: one warm-up download, then two DIFFERENT blobs at the same time, honest server only
     yield {'kind': 'downloader', 'seed': 121, 'sizes': [5000, 70000, 30000], 'peers': [{'holds': [0, 1, 2], 'once': {}}],
            'with_length': [False, True, False], 'precache': [False, False, False], 'once_kind': None,
@@ -2679,6 +2717,20 @@ def gen_retry_case(rng, liar, T=3):
     return {'kind': 'client', 'T': T, 'requests': [r0, r1], 'modelled': m0}
 
 
+def gen_cancel_tail_case(rng, T=3):
+    """request 0 is cancelled mid-body; the next request starts at once; the server is still sending the tail of
+    blob 0 on the connection of request 0 (closed by the client - or, wrongly, kept and reused)"""
+    r0, _ = gen_request(rng, T, mis=None, size=rng.choice([100, 1000, 4096]), known_mode=rng.choice(['none', 'right']))
+    stream = b''.join(bytes.fromhex(e[1]) for e in r0['events'] if e[0] == 'data')
+    hl = len(honest_header(r0['hash'], r0['size']))
+    cut = hl + rng.choice([0, r0['size'] // 2, r0['size'] - 1])
+    r0['events'] = [['data', stream[:cut].hex()], ['drain'], ['cancel']]
+    r0['honest'], r0['tag'] = False, 'cancel_no_tail'
+    r1, _ = gen_request(rng, T, mis=None)
+    r1['events'] = [['data_prev', stream[cut:].hex()], ['drain']] + r1['events']
+    return {'kind': 'client', 'T': T, 'requests': [r0, r1], 'modelled': True}
+
+
 def retry_corpus_case():
     blob = bytes((i * 7 + 3) % 251 for i in range(100))
     h = sha(blob)
@@ -2774,6 +2826,8 @@ def main(run):
                                                      size=rng.choice([1, 24, 25, 300, 1000]) if frag == 'bytes' else None))
     for _ in range(60 * mult):
         dispatch(run, model, gen_client_case(rng, mis=rng.choice([None] + MISBEHAVIOURS)))
+    for _ in range(12 * mult):
+        dispatch(run, model, gen_cancel_tail_case(rng))
     # --- client: exhaustive single cuts (thorough: every blob kind, and all cut pairs around the header end)
     kinds = sorted(set(BLOB_KINDS)) if thorough else ['f7']
     for kind in kinds:
@@ -2804,7 +2858,7 @@ def main(run):
             if liar not in ('len_bool', 'known_wrong'):   # known_wrong: the CALLER's length is wrong, not a peer's doing
                 dispatch(run, model, gen_retry_case(rng, liar))
     # --- the real BlobDownloader over responsive scripted peers: a peer misbehaves once mid-session, honest afterwards
-    for case in list(fixed_downloader_cases())[2:3]:
+    for case in list(fixed_downloader_cases())[2:5]:
         dispatch(run, model, case)
     for rep in range(mult):
         for kind in ONCE_KINDS:
@@ -2812,6 +2866,12 @@ def main(run):
                 dispatch(run, model, gen_downloader_case(rng, kind=kind, two_peers=two))
     for _ in range(20 * mult):
         dispatch(run, model, gen_downloader_case(rng))
+    for rep in range(2 * mult):
+        for kind in ('short_stall', 'honest_slow'):
+            c = gen_downloader_case(rng, kind='short_stall', two_peers=rng.random() < 0.3)
+            tgt = int(list(c['peers'][0]['once'].keys())[0])
+            c['cancel_first'], c['cancel_after'] = tgt, rng.choice([1, 2])
+            dispatch(run, model, c)
     for rep in range(mult):
         for kind in [None, None] + ONCE_KINDS:
             c = gen_downloader_case(rng, kind=kind or 'corrupt', two_peers=rng.random() < 0.4, concurrent=True)
